@@ -360,8 +360,11 @@ impl G1Affine {
     /// `from_uncompressed()` instead.
     fn from_uncompressed_unchecked(bytes: &[u8; UNCOMPRESSED_SIZE]) -> CtOption<Self> {
         let mut raw = blst_p1_affine::default();
-        let success =
-            unsafe { blst_p1_deserialize(&mut raw, bytes.as_ptr()) == BLST_ERROR::BLST_SUCCESS };
+        // `blst_p1_deserialize` also parses the *compressed* form (compression bit set) from
+        // the first half of the buffer and ignores the rest; an uncompressed encoding never
+        // has that bit.
+        let success = bytes[0] & 0x80 == 0
+            && unsafe { blst_p1_deserialize(&mut raw, bytes.as_ptr()) == BLST_ERROR::BLST_SUCCESS };
         CtOption::new(G1Affine(raw), Choice::from(success as u8))
     }
 
